@@ -88,6 +88,71 @@ def make_c01_replay(ref, v, pid='C01'):
     return d
 
 
+def make_c15_replay(ref, v):
+    from harness import common
+    from oracles import select
+    d = common.replay_dir('C15', v['signature'])
+    val = materialise_ref(ref, os.path.join(d, 'plt'))
+    data = concrete_data(ref, val)
+    fs_expr, lv_expr, bs_expr = v['call']
+    if v['mode'] == 'iter':
+        dd = make_c01_replay(ref, dict(v, mode='iter'), pid='C15')
+        return dd
+    env = {'np': np}
+    fexp = select.fields_expected(ref.fields, eval(fs_expr, env))
+    lv = int(lv_expr)
+    expected = {'kind': 'multiset', 'arrays': [_arr_hex(data[lv][b][..., fexp[1]]) for b in range(len(ref.boxes[lv]))]}
+    case = {'property': 'C15', 'handler': 'c15_list', 'signature': v['signature'], 'what': v['what'],
+            'call': v['call'], 'expected': expected, 'structure': ref.describe()}
+    with open(os.path.join(d, 'case.json'), 'w') as f:
+        json.dump(case, f, indent=1)
+    common.write_replay_stub(d)
+    return d
+
+
+def exp_to_json(exp, val):
+    """Serialise an expected plotfile (outcheck.Exp / Ref) under a valuation."""
+    def num(x):
+        return float(val(x)) if hasattr(x, 't') else float(x)
+    out = {'ndims': exp.ndims, 'fields': list(exp.fields), 'time': num(exp.time), 'lo': [num(x) for x in exp.lo],
+           'hi': [num(x) for x in exp.hi], 'dx': [[num(x) for x in d] for d in exp.dx], 'ncell': [list(n) for n in exp.ncell],
+           'boxes': [[[list(a), list(b)] for a, b in lv] for lv in exp.boxes], 'data': [], 'mins': None, 'maxs': None}
+    for lv in exp.data:
+        lo = []
+        for arr in lv:
+            c = np.empty(arr.shape, dtype=float)
+            for idx in np.ndindex(*arr.shape):
+                c[idx] = num(arr[idx])
+            lo.append(_arr_hex(c))
+        out['data'].append(lo)
+    if getattr(exp, 'mins', None) is not None:
+        out['mins'] = [[[num(x) for x in row] for row in lv] for lv in exp.mins]
+        out['maxs'] = [[[num(x) for x in row] for row in lv] for lv in exp.maxs]
+    return out
+
+
+def make_tool_replay(pid, signature, what, inputs, run_src, expected, extra=None, val=None):
+    """inputs: {dirname: (fs, symfs path)}; run_src: Python source run with cwd = replay dir and the
+    names IN (replay dir) and OUT (output path) defined; expected: dict (see replay_tool)."""
+    from harness import common
+    from model import plotfile
+    d = common.replay_dir(pid, signature)
+    val = val or common.Valuation()
+    for name, (fs, path) in inputs.items():
+        plotfile.write_real_tree(fs, path, os.path.join(d, name), val)
+    if expected.get('tree_exp') is not None:
+        expected = dict(expected)
+        expected['tree'] = exp_to_json(expected.pop('tree_exp'), val)
+    case = {'property': pid, 'handler': 'tool', 'signature': signature, 'what': what, 'run': run_src,
+            'expected': expected}
+    if extra:
+        case.update(extra)
+    with open(os.path.join(d, 'case.json'), 'w') as f:
+        json.dump(case, f, indent=1)
+    common.write_replay_stub(d)
+    return d
+
+
 # ---- replay side (unpatched code) ----------------------------------------------------------------------
 
 def replay_c01(d, case):
@@ -121,7 +186,242 @@ def replay_c01(d, case):
     return False, 'data equal'
 
 
-HANDLERS = {'c01': replay_c01}
+def replay_c15_list(d, case):
+    from amr_kitchen import PlotfileCooker
+    pck = PlotfileCooker(os.path.join(d, 'plt'))
+    fsel = eval(case['call'][0], {'np': np})
+    lv = int(case['call'][1])
+    exp = [_arr_from_hex(a) for a in case['expected']['arrays']]
+    # run it a few times: the order of completion is the OS's
+    for attempt in range(3):
+        try:
+            got = list(pck[fsel][lv])
+        except Exception as e:
+            return True, 'raised %s: %s' % (type(e).__name__, e)
+        if len(got) != len(exp):
+            return True, 'yielded %d arrays for %d boxes' % (len(got), len(exp))
+        left = list(range(len(exp)))
+        for g in got:
+            m = [i for i in left if bit_equal(g, exp[i])]
+            if not m:
+                return True, 'yielded an array that is no box of the level (or a box twice)'
+            left.remove(m[0])
+    return False, 'every box exactly once'
+
+
+class RealReadError(Exception):
+    pass
+
+
+def _ints(s):
+    return tuple(int(x) for x in s.replace('(', '').replace(')', '').split(','))
+
+
+def read_real_plotfile(path):
+    """Deliberately dumb reader of a plotfile directory (struct, no repository code)."""
+    P = {}
+    try:
+        with open(os.path.join(path, 'Header')) as f:
+            lines = f.read().split('\n')
+        it = iter(lines)
+        next(it)
+        nf = int(next(it))
+        P['fields'] = [next(it) for _ in range(nf)]
+        P['ndims'] = int(next(it))
+        P['time'] = float(next(it))
+        finest = int(next(it))
+        P['lo'] = [float(x) for x in next(it).split()]
+        P['hi'] = [float(x) for x in next(it).split()]
+        next(it)
+        dom = next(it).split()
+        P['ncell'] = [[h - l + 1 for l, h in zip(_ints(dom[i]), _ints(dom[i + 1]))] for i in range(0, len(dom), 3)]
+        next(it)
+        P['dx'] = [[float(x) for x in next(it).split()] for _ in range(finest + 1)]
+        next(it)
+        next(it)
+        P['boxes_phys'] = []
+        dirs = []
+        for l in range(finest + 1):
+            lv, nb, t = next(it).split()
+            if int(lv) != l:
+                raise RealReadError('level line')
+            next(it)
+            P['boxes_phys'].append([[[float(x) for x in next(it).split()] for d in range(P['ndims'])] for b in range(int(nb))])
+            dirs.append(next(it).split('/')[0])
+    except (StopIteration, ValueError, IndexError, OSError) as e:
+        raise RealReadError('Header does not parse: %r' % (e,))
+    P['boxes'] = []
+    P['data'] = []
+    P['mins'] = []
+    P['maxs'] = []
+    for l in range(finest + 1):
+        try:
+            with open(os.path.join(path, dirs[l], 'Cell_H')) as f:
+                lines = f.read().split('\n')
+            it = iter(lines)
+            next(it)
+            next(it)
+            if int(next(it)) != nf:
+                raise RealReadError('Cell_H field count')
+            next(it)
+            nb = int(next(it).split()[0].replace('(', ''))
+            idx = []
+            for _ in range(nb):
+                a, b, _c = next(it).split()
+                idx.append((_ints(a), _ints(b)))
+            if next(it).strip() != ')':
+                raise RealReadError('missing )')
+            if int(next(it)) != nb:
+                raise RealReadError('box counts differ')
+            fabs = []
+            for _ in range(nb):
+                tag, fn, off = next(it).split()
+                fabs.append((fn, int(off)))
+            rest = list(it)
+            mins = [[float(x) for x in r.split(',')[:-1]] for r in rest[2:2 + nb]]
+            maxs = [[float(x) for x in r.split(',')[:-1]] for r in rest[4 + nb:4 + 2 * nb]]
+        except (StopIteration, ValueError, IndexError, OSError) as e:
+            raise RealReadError('Cell_H of level %d does not parse: %r' % (l, e))
+        if nb != len(P['boxes_phys'][l]):
+            raise RealReadError('level %d: box counts differ between Header and Cell_H' % l)
+        ld = []
+        spans = {}
+        for b, ((lo_, hi_), (fn, off)) in enumerate(zip(idx, fabs)):
+            fp = os.path.join(path, dirs[l], fn)
+            if not os.path.isfile(fp):
+                raise RealReadError('level %d box %d: %s missing' % (l, b, fn))
+            with open(fp, 'rb') as f:
+                f.seek(off)
+                h = f.readline()
+                try:
+                    hs = h.decode('ascii')
+                    toks = hs.split()
+                    if not hs.startswith('FAB ') or not hs.endswith('\n'):
+                        raise ValueError
+                    fnf = int(toks[-1])
+                    flo, fhi = _ints(toks[-4].split('(')[-1]), _ints(toks[-3])
+                except (ValueError, IndexError, UnicodeDecodeError):
+                    raise RealReadError('level %d box %d: no FAB header at %s:%d' % (l, b, fn, off))
+                if (flo, fhi) != (lo_, hi_) or fnf != nf:
+                    raise RealReadError('level %d box %d: FAB header %s-%s nf=%d disagrees with the level header' % (l, b, flo, fhi, fnf))
+                shp = tuple(hh - ll + 1 for ll, hh in zip(lo_, hi_))
+                n = int(np.prod(shp)) * nf
+                raw = f.read(8 * n)
+                if len(raw) != 8 * n:
+                    raise RealReadError('level %d box %d: truncated payload' % (l, b))
+                ld.append(np.frombuffer(raw, dtype='<f8').reshape(shp + (nf,), order='F'))
+                spans.setdefault(fn, []).append((off, f.tell()))
+        for fn, sp in spans.items():
+            sp.sort()
+            pos = 0
+            for a, e in sp:
+                if a != pos:
+                    raise RealReadError('level %d file %s: gap or overlap at byte %d' % (l, fn, pos))
+                pos = e
+            if pos != os.path.getsize(os.path.join(path, dirs[l], fn)):
+                raise RealReadError('level %d file %s: trailing bytes' % (l, fn))
+        P['boxes'].append(idx)
+        P['data'].append(ld)
+        P['mins'].append(mins)
+        P['maxs'].append(maxs)
+    return P
+
+
+def compare_real_tree(P, T, mode='bits', minmax=True, box_order='same'):
+    """None if the parsed tree P equals the expected tree T (from exp_to_json), else a message."""
+    def close(a, b):
+        if mode == 'bits':
+            return float(a) == float(b) or (a != a and b != b)
+        return abs(a - b) <= 1e-9 * max(1.0, abs(a), abs(b))
+    if P['fields'] != T['fields']:
+        return 'fields %s, expected %s' % (P['fields'], T['fields'])
+    if P['ndims'] != T['ndims'] or len(P['boxes']) != len(T['boxes']):
+        return 'ndims/levels differ'
+    if P['time'] != T['time'] or P['lo'] != T['lo'] or P['hi'] != T['hi'] or P['dx'] != T['dx']:
+        return 'time/geometry/cell sizes differ: %s %s %s %s' % (P['time'], P['lo'], P['hi'], P['dx'])
+    if [list(n) for n in P['ncell']][:len(T['ncell'])] != [list(n) for n in T['ncell']]:
+        return 'domain sizes differ'
+    for l in range(len(T['boxes'])):
+        got = [(tuple(a), tuple(b)) for a, b in P['boxes'][l]]
+        want = [(tuple(a), tuple(b)) for a, b in T['boxes'][l]]
+        if sorted(got) != sorted(want) or (box_order == 'same' and got != want):
+            return 'level %d boxes %s, expected %s' % (l, got, want)
+        for k, box in enumerate(got):
+            b = want.index(box)
+            lo_, hi_ = box
+            for d in range(T['ndims']):
+                e0 = T['lo'][d] + lo_[d] * T['dx'][l][d]
+                e1 = T['lo'][d] + (hi_[d] + 1) * T['dx'][l][d]
+                g0, g1 = P['boxes_phys'][l][k][d]
+                if abs(g0 - e0) > 1e-12 * max(1, abs(e0)) or abs(g1 - e1) > 1e-12 * max(1, abs(e1)):
+                    return 'level %d box %d physical bounds %s, expected %s' % (l, k, (g0, g1), (e0, e1))
+            want_arr = _arr_from_hex(T['data'][l][b])
+            g = P['data'][l][k]
+            if g.shape != want_arr.shape:
+                return 'level %d box %d shape %s, expected %s' % (l, k, g.shape, want_arr.shape)
+            if mode == 'bits':
+                if not bit_equal(g, want_arr):
+                    return 'level %d box %s: values differ from the expected ones (bit comparison)' % (l, box)
+            elif not np.allclose(g, want_arr, rtol=1e-9, atol=1e-300, equal_nan=True):
+                return 'level %d box %s: values differ from the expected ones' % (l, box)
+            if minmax and T.get('mins') is not None:
+                for name in ('mins', 'maxs'):
+                    row = P[name][l][k] if k < len(P[name][l]) else None
+                    wrow = T[name][l][b]
+                    if row is None or len(row) != len(wrow) or any(abs(x - y) > 1e-12 * max(1e-300, abs(y)) for x, y in zip(row, wrow)):
+                        return 'level %d box %s: %s row %s, expected %s' % (l, box, name, row, wrow)
+    return None
+
+
+def replay_tool(d, case):
+    """Runs case['run'] against the real code; judges the outcome against case['expected']:
+       {'kind': 'tree', 'tree': ..., 'taste': True, 'compare': 'bits'|'close', 'out': name}
+       {'kind': 'raise'}                      the call must raise (or exit non-zero)
+       {'kind': 'value', 'hex'|'close': ...}  the value left in RESULT"""
+    exp = case['expected']
+    env = {'IN': d, 'OUT': os.path.join(d, exp.get('out', 'out')), 'np': np, 'os': os, 'RESULT': None}
+    os.chdir(d)
+    raised = None
+    try:
+        exec(case['run'], env)
+    except SystemExit as e:
+        if e.code not in (None, 0):
+            raised = e
+    except Exception as e:
+        raised = e
+    if exp['kind'] == 'raise':
+        if raised is None:
+            return True, 'returned normally instead of raising'
+        return False, 'raised %s as required' % type(raised).__name__
+    if raised is not None:
+        return True, 'raised %s: %s' % (type(raised).__name__, raised)
+    if exp['kind'] == 'tree':
+        try:
+            P = read_real_plotfile(env['OUT'])
+        except RealReadError as e:
+            return True, 'output is not a well-formed plotfile: %s' % e
+        msg = compare_real_tree(P, exp['tree'], exp.get('compare', 'bits'), exp.get('minmax', True), exp.get('box_order', 'same'))
+        if msg:
+            return True, msg
+        if exp.get('taste', True):
+            from amr_kitchen.taste.taste import Taster
+            import contextlib, io
+            with contextlib.redirect_stdout(io.StringIO()):
+                ok = bool(Taster(env['OUT'], nofail=True, **exp.get('taste_args', {})))
+            if not ok:
+                return True, 'taste rejects the output'
+        return False, 'output equals the expected plotfile'
+    if exp['kind'] == 'value':
+        got = env['RESULT']
+        if 'close' in exp:
+            w = exp['close']
+            if got is None or abs(float(got) - w) > 1e-9 * max(1.0, abs(w)):
+                return True, 'returned %r, expected %r' % (got, w)
+            return False, 'value equal'
+    return False, 'nothing to compare'
+
+
+HANDLERS = {'c01': replay_c01, 'c15_list': replay_c15_list, 'tool': replay_tool}
 
 
 def register(name):
